@@ -278,6 +278,10 @@ func (n *WorkflowNode) AddDependency(fromNodeKey string) *WorkflowNode {
 //
 //	node.SetStaticValue(FieldPath{"query"}, "static query")
 func (n *WorkflowNode) SetStaticValue(path FieldPath, value any) *WorkflowNode {
+	if n.g.compiled {
+		// a compiled workflow can no longer be modified
+		return n
+	}
 	n.staticValues[path.join()] = value
 	return n
 }
